@@ -2,11 +2,13 @@ package gen
 
 import (
 	"fmt"
+	"strings"
 
 	"github.com/protobom/protobom/pkg/sbom"
 )
 
-var spdxIDs = []string{"a", "b", "c", "pkg-1", "lib.so.1", "File-A", "n0", "x.y-z", "Z9"}
+// identifiers are case sensitive: "Document" and "document" are ordinary element identifiers, only "DOCUMENT" is the document's own
+var spdxIDs = []string{"a", "b", "c", "pkg-1", "lib.so.1", "File-A", "n0", "x.y-z", "Z9", "Document", "document", "DOCUMENT-2"}
 
 var plainTexts = []string{"x", "foo", "bar 1.0", "Apache-2.0", "MIT", "héllo wörld", "日本語", "a b  c", "(c) 2024 X", "v1.2.3", "https://example.com/p"}
 
@@ -146,6 +148,16 @@ func (g *G) SPDXClassDocument() *sbom.Document {
 			e.To = append(e.To, Pick(g, present)) // self loops, repeated targets, cycles
 		}
 		d.NodeList.Edges = append(d.NodeList.Edges, e)
+	}
+	// the relationship types the reader treats specially (DESCRIBES from the document, CONTAINS) also occur
+	// between ordinary elements, in any spelling of the source identifier
+	for _, id := range present {
+		if strings.EqualFold(strings.TrimSuffix(id, "-2"), "document") && g.Chance(0.7) {
+			d.NodeList.Edges = append(d.NodeList.Edges, &sbom.Edge{Type: sbom.Edge_describes, From: id, To: []string{Pick(g, present)}})
+		}
+	}
+	if g.Chance(0.15) {
+		d.NodeList.Edges = append(d.NodeList.Edges, &sbom.Edge{Type: sbom.Edge_describes, From: Pick(g, present), To: []string{Pick(g, present)}})
 	}
 	for _, id := range present {
 		if g.Chance(0.35) {
